@@ -322,6 +322,14 @@ def raceH : Handler := fun inp impl => do
 
 def hasHarnessError (impl : Json) : Bool := (impl.getObjVal? "harness_error").isOk
 
+/-- class tag of a case the harness could not stage: `harness-error:` plus the first words of its message (digits
+dropped), so that the evidence histogram says *what* the environment refused -/
+def harnessTag (impl : Json) : String :=
+  let msg := strOf impl "harness_error"
+  let words := (msg.splitOn " ").filter (· != "") |>.take 4
+  let clean := words.map fun w => String.ofList (w.toList.filter fun c => c.isAlpha || c == '-' || c == '.')
+  "harness-error:" ++ String.intercalate "-" (clean.filter (· != ""))
+
 def optStrOf (j : Json) (k : String) : Option String :=
   match j.getObjVal? k with
   | .ok (.str s) => some s
@@ -518,7 +526,7 @@ def pathH (inp impl : Json) : Verdict :=
 
 def loadersH : Handler := fun inp impl => do
   if hasHarnessError impl then
-    return ({ model := Json.null, agree := false, spec := true, nontrivial := false, tag := "harness-error" } : Verdict).toJson
+    return ({ model := Json.null, agree := false, spec := true, nontrivial := false, tag := harnessTag impl } : Verdict).toJson
   match strOf inp "kind" with
   | "url" => return (urlH inp impl).toJson
   | "path" => return (pathH inp impl).toJson
@@ -608,7 +616,7 @@ def srcDeclared (kind : String) (base : List Char) (e : Json) : Option Mat :=
 
 def sourceH : Handler := fun inp impl => do
   if hasHarnessError impl then
-    return ({ model := Json.null, agree := false, spec := true, nontrivial := false, tag := "harness-error" } : Verdict).toJson
+    return ({ model := Json.null, agree := false, spec := true, nontrivial := false, tag := harnessTag impl } : Verdict).toJson
   let kind := strOf inp "kind"
   let epochs := arrOf inp "epochs"
   if epochs.isEmpty then throw "no epochs"
@@ -705,7 +713,7 @@ def e2eOne (sc impl : Json) : E2ERes :=
 
 def e2eH : Handler := fun inp impl => do
   if hasHarnessError impl then
-    return ({ model := Json.null, agree := false, spec := true, nontrivial := false, tag := "harness-error" } : Verdict).toJson
+    return ({ model := Json.null, agree := false, spec := true, nontrivial := false, tag := harnessTag impl } : Verdict).toJson
   let scns := arrOf inp "scns"
   let impls := match impl with | .arr a => a.toList | _ => []
   if impls.length != scns.length then
@@ -807,7 +815,7 @@ def lsnOne (sc impl : Json) : LsnRes :=
 
 def listenersH : Handler := fun inp impl => do
   if hasHarnessError impl then
-    return ({ model := Json.null, agree := false, spec := true, nontrivial := false, tag := "harness-error" } : Verdict).toJson
+    return ({ model := Json.null, agree := false, spec := true, nontrivial := false, tag := harnessTag impl } : Verdict).toJson
   let scns := arrOf inp "scns"
   let impls := match impl with | .arr a => a.toList | _ => []
   if impls.length != scns.length then
